@@ -1,6 +1,6 @@
 def run(ctx):
     from . import factorize_proofs, finalize_proofs
 
-    a = factorize_proofs.run(ctx, ["range", "factorize"])
+    a = factorize_proofs.run(ctx, ["range", "factorize", "convert"])
     b = finalize_proofs.run(ctx, "C05")
     return a + " " + b
